@@ -171,8 +171,8 @@ Finalize(n) == /\ blk = <<>>
 
 \* a block arrives from the network and goes through the three consensus checks
 Submit(r) == /\ blk = <<>>
-             /\ blk' = <<Build(r)>>
-             /\ res' = <<Decide(Build(r), now, bps, lib, iv)>>
+             /\ LET b == Build(r) IN /\ blk' = <<b>>
+                                     /\ res' = <<Decide(b, now, bps, lib, iv)>>
              /\ UNCHANGED <<iv, now, bps, lib>>
              /\ lastAct' = [name |-> "Submit", r |-> r]
 
@@ -194,21 +194,25 @@ Done == /\ blk # <<>>
 
 \* ------------------------------------------------------------------ the universe of recipes (exhaustive configurations)
 Nos == 0..(MaxLib + 1)
+\* where a forger would move a signed block: the neighbouring ms and slots, the same producer's slot of the next rounds
+TsTargets(ts) == ({ts - 1, ts + 1, ts - iv, ts + iv} \cup {ts + Len(l) * iv : l \in Lists}) \cap StampsOf(iv)
 Mutations(r_signer, r_ts, r_no) ==
   {NoMut}
   \cup {FieldMut(f, 0) : f \in OpaqueFields}
-  \cup {FieldMut("Timestamp", t) : t \in StampsOf(iv) \ {r_ts}}
+  \cup {FieldMut("Timestamp", t) : t \in TsTargets(r_ts)}
   \cup {FieldMut("BlockNo", n) : n \in Nos \ {r_no}}
   \cup {FieldMut("PubKey", k) : k \in (Keys \cup {Garbage}) \ {r_signer}}
   \cup {FieldMut("Sign", k) : k \in (Keys \cup {Garbage}) \ {r_signer}}
   \cup {ShiftMut(p[1], p[2]) : p \in AdjacentPairs}
 AllRecipes == UNION { {Recipe(k, t, n, m) : m \in Mutations(k, t, n)} : k \in Keys, t \in StampsOf(iv), n \in Nos }
 
-Next == \/ \E t \in ClockOf(iv) : Tick(t)
-        \/ \E l \in Lists : Elect(l)
-        \/ \E n \in 0..MaxLib : Finalize(n)
-        \/ \E r \in AllRecipes : Submit(r)
-        \/ Produce
+\* (the guard blk = <<>> is repeated in front so that TLC does not enumerate the recipes in vain)
+Next == \/ /\ blk = <<>>
+           /\ \/ \E t \in ClockOf(iv) : Tick(t)
+              \/ \E l \in Lists : Elect(l)
+              \/ \E n \in 0..MaxLib : Finalize(n)
+              \/ \E r \in AllRecipes : Submit(r)
+              \/ Produce
         \/ Done
 
 Spec == Init /\ [][Next]_vars
